@@ -157,17 +157,30 @@ def build():
     U.raw('_Bool ghost_played_safe;   /* result of playing the move and testing the own king (else-branch of removeIllegal) */\n')
     U.passthrough('ghost_played_safe')
     RIP = [('Position', 'pos', True), ('Move', 'm', True), ('Square', 'kSq', False), ('U64', 'kingAtks', False), ('Square', 'epSquare', False)]
-    if not re.search(r'if \(isInCheck\) \{\s*kingAtks \|= pos\.pieceTypeBB\(pos\.isWhiteMove\(\) \? Piece::BKNIGHT : Piece::WKNIGHT\);\s*for \(int mi = 0; mi < moveList\.size; mi\+\+\) \{\s*const Move& m = moveList\[mi\];\s*bool legal;', ri.body):
-        raise ExtractError('pin changed: structure of MoveGen::removeIllegal (first verdict is the in-check loop)')
+    # statements of each branch that precede its loop (in-check branch: the opponent knights are added to kingAtks; other branch: nothing at
+    # present) run once before the loop; they are prepended to the verdict fragment of that branch, so that a refactoring which precomputes
+    # something there is verified together with the per-move test instead of breaking the extraction
+    LOOPH = r'for \(int mi = 0; mi < moveList\.size; mi\+\+\) \{\s*const Move& m = moveList\[mi\];\s*'
+    mm_ic = re.search(r'if \(isInCheck\) \{(.*?)' + LOOPH + r'bool legal;', ri.body, re.S)
+    lh = list(re.finditer(LOOPH + r'bool legal;', ri.body))
+    if not mm_ic or len(lh) != 2 or len(re.findall(LOOPH, ri.body)) != 2:
+        raise ExtractError('pin changed: structure of MoveGen::removeIllegal (if (isInCheck) { <prelude> loop } else { <prelude> loop })')
+    before2 = ri.body[:lh[1].start()]
+    k = before2.rfind('} else {')     # the else of the branch: the last one before the second loop
+    if k < lh[0].end():
+        raise ExtractError('pin changed: else branch of MoveGen::removeIllegal not found')
+    PRE_IC, PRE_NIC = mm_ic.group(1), before2[k + len('} else {'):]
+    if '{' in PRE_IC + PRE_NIC and (PRE_IC + PRE_NIC).count('{') != (PRE_IC + PRE_NIC).count('}'):
+        raise ExtractError('pin changed: unbalanced braces in a loop prelude of MoveGen::removeIllegal')
     # head of removeIllegal: in-check flag, king square, king rays, en-passant square (up to `if (isInCheck) {`; the statement that adds the
     # opponent knights to kingAtks in the in-check branch is pinned text, see the structural pin above)
     U.fragment(MG_C, 'MoveGen_removeIllegal_head', r'\A', r'if \(isInCheck\) \{', within='MoveGen::removeIllegal', within_kw=dict(nparams=2),
                params=[('Position', 'pos', True), ('bool', 'out_ic', True), ('Square', 'out_ksq', True), ('U64', 'out_atks', True), ('Square', 'out_ep', True)],
                cls='MoveGen', is_static=True, epilogue='\n    out_ic = isInCheck; out_ksq = kSq; out_atks = kingAtks; out_ep = epSquare;\n')
     U.fragment(MG_C, 'MoveGen_removeIllegal_verdict_ic', r'bool legal;', r'if \(legal\)\s*moveList\[length\+\+\] = m;', start_nth=(0, 2), end_first=True,
-               params=RIP, ret='bool', cls='MoveGen', is_static=True, rules=[(PLAY, 'legal = ghost_played_safe;', 1)], epilogue='\n    return legal;\n', within='MoveGen::removeIllegal', within_kw=dict(nparams=2))
+               params=RIP, ret='bool', cls='MoveGen', is_static=True, rules=[(PLAY, 'legal = ghost_played_safe;', 1)], prologue=PRE_IC, epilogue='\n    return legal;\n', within='MoveGen::removeIllegal', within_kw=dict(nparams=2))
     U.fragment(MG_C, 'MoveGen_removeIllegal_verdict_nic', r'bool legal;', r'if \(legal\)\s*moveList\[length\+\+\] = m;', start_nth=(1, 2), end_first=True,
-               params=RIP, ret='bool', cls='MoveGen', is_static=True, rules=[(PLAY, 'legal = ghost_played_safe;', 1)], epilogue='\n    return legal;\n', within='MoveGen::removeIllegal', within_kw=dict(nparams=2))
+               params=RIP, ret='bool', cls='MoveGen', is_static=True, rules=[(PLAY, 'legal = ghost_played_safe;', 1)], prologue=PRE_NIC, epilogue='\n    return legal;\n', within='MoveGen::removeIllegal', within_kw=dict(nparams=2))
     # MoveGen::pseudoLegalCapturesAndChecks<wtm>: head (discovered-check masks), sliders, king, knights, pawns + composition.
     # Decided for it: only pseudo-legal moves, none twice, and every move of the capture class is present; "every checking move is present" is NOT.
     CC_KW = dict(within='MoveGen::pseudoLegalCapturesAndChecks', within_kw=dict(nparams=2, template=True))
@@ -658,8 +671,9 @@ CONTRACTS['MoveGen_removeIllegal_head'] = {
     'ensures': ['*out_ic == spec_in_check(pos)', '*out_ksq == spec_king_sq(pos->squares, pos->whiteMove)', '*out_ep == pos->epSquare',
                 '*out_atks == (spec_rook_rays(*out_ksq, spec_occ(pos->squares)) | spec_bishop_rays(*out_ksq, spec_occ(pos->squares)))']}
 CONTRACTS['MoveGen_removeIllegal_verdict_ic'] = {
-    # in check: kingAtks = king rays + all opponent knights; a non-king, non-en-passant move to a square outside them can neither capture the checker nor interpose
-    'requires': _RIPRE + ['spec_in_check(pos)', 'kingAtks == (%s | (pos->whiteMove ? pos->pieceTypeBB_[Piece_BKNIGHT] : pos->pieceTypeBB_[Piece_WKNIGHT]))' % _RAYS],
+    # in check: the branch first adds all opponent knights to the king rays (statement inside the fragment); a non-king, non-en-passant move to a
+    # square outside them can neither capture the checker nor interpose
+    'requires': _RIPRE + ['spec_in_check(pos)', 'kingAtks == %s' % _RAYS],
     'assigns': [], 'ensures': ['__CPROVER_return_value == spec_leaves_king_safe(pos, m)']}
 CONTRACTS['MoveGen_removeIllegal_verdict_nic'] = {
     # not in check: a non-king, non-en-passant move of a piece that does not stand on a king ray cannot expose the king
@@ -871,7 +885,7 @@ ASSUMPTIONS = {'C01': [
     'position domain: bitboards consistent with the board (wf_bb), one king per side, no pawns on the first/last rank, castling rights imply king and rook on their squares, en-passant square as makeMove establishes it',
 ]}
 NOT_DECIDED = {'C01': ['isLegal (verdict == playing the move): contract written, complete 12-way case split; the two king-move cases are discharged (24 and 42 min), the other cases did not finish in 50 min each: not claimed',
-                       'removeIllegal: the per-move verdict of both loops is decided in the thorough tier (king-ray shortcut == playing the move; the play-the-move branch is replaced by its specification, its text is pinned); the compaction of the list (moveList[length++] = m) and the knight statement of the in-check branch are pinned text only',
+                       'removeIllegal: the per-move verdict of both loops is decided in the thorough tier (king-ray shortcut == playing the move; the play-the-move branch is replaced by its specification, its text is pinned); the compaction of the list (moveList[length++] = m) is pinned text only',
                        'pseudoLegalCapturesAndChecks: decided are "only pseudo-legal moves, none twice, every capture / en-passant capture / queen-or-knight promotion present"; that every CHECKING quiet move is present (direct and discovered checks) is NOT decided',
                        'sliding-attack magic tables, FEN text layer, MoveList capacity']}
 
